@@ -84,11 +84,20 @@ Theorem c08_never_registered_silent : forall x i t t0 tm c h,
 Proof. intros. now apply never_registered_silent. Qed.
 Print Assumptions c08_never_registered_silent.
 
+(** A callback returning an error in some cycle (Collect then returns the error together with the
+    data) changes no stream of any reader, in that cycle or any later one: the cycle still reports
+    exactly what its callbacks observed and leaves nothing over.  [errs_of] says in which cycles
+    Collect reports an error. *)
+Theorem c08_callback_error_harmless : forall x i t t0 tm h,
+  stream x i t t0 tm (clear_fail h) = stream x i t t0 tm h.
+Proof. exact callback_error_harmless. Qed.
+Print Assumptions c08_callback_error_harmless.
+
 (** Points come out in canonical order without repeated attribute sets, one trace entry
     per collection. *)
 Theorem c08_points_canonical : forall x i t t0 tm h,
   AllSorted (stream x i t t0 tm h) /\
-  length (stream x i t t0 tm h) = length (filter (fun o => match o with Collect _ => true | _ => false end) h).
+  length (stream x i t t0 tm h) = length (filter (fun o => match o with Collect _ _ => true | _ => false end) h).
 Proof. exact points_canonical. Qed.
 Print Assumptions c08_points_canonical.
 
@@ -119,9 +128,9 @@ Print Assumptions c08_checker_sound.
 
 (** ** Non-vacuity *)
 Definition ex_h : list op :=
-  [ Measure 0%nat 1%N 5; Measure 0%nat 2%N 7; Register 10%N [1%nat]; Collect [(10%N, 1%nat, 1%N, 100)];
-    Measure 0%nat 1%N 3; Collect [(10%N, 1%nat, 1%N, 130); (10%N, 1%nat, 2%N, 9)];
-    Unregister 10%N; Collect [(10%N, 1%nat, 1%N, 999)] ].
+  [ Measure 0%nat 1%N 5; Measure 0%nat 2%N 7; Register 10%N [1%nat]; Collect [(10%N, 1%nat, 1%N, 100)] [];
+    Measure 0%nat 1%N 3; Collect [(10%N, 1%nat, 1%N, 130); (10%N, 1%nat, 2%N, 9)] [10%N];
+    Unregister 10%N; Collect [(10%N, 1%nat, 1%N, 999)] [10%N] ].
 Definition ex_tm (n : nat) : N := N.of_nat (10 * S n).
 
 Example ex_counter :
@@ -141,5 +150,5 @@ Example ex_hist :
 Proof. vm_compute. auto. Qed.
 Example ex_clock : (1 <= ex_tm 0)%N /\ monotone ex_tm.
 Proof. split; [vm_compute; discriminate|]. intros a b H. unfold ex_tm. lia. Qed.
-Example ex_unregistered : forallb (fun o => negb (registers 10%N o)) [Collect [(10%N, 1%nat, 1%N, 999)]] = true.
+Example ex_unregistered : forallb (fun o => negb (registers 10%N o)) [Collect [(10%N, 1%nat, 1%N, 999)] []] = true.
 Proof. reflexivity. Qed.
